@@ -152,7 +152,7 @@ func Build(root *ggql.Root, defs []Def) (types []ggql.Type, err error) {
 			}
 			types = append(types, t)
 		case "INTERFACE":
-			t := &ggql.Interface{Base: base, Root: root}
+			t := &ggql.Interface{Base: base} // (Root is left to AddTypes: an application has no reason to know it is needed)
 			for k := range d.Fields {
 				var fd *ggql.FieldDef
 				if fd, err = goField(&d.Fields[k]); err == nil {
